@@ -260,6 +260,76 @@ def rules(ctx, db):
             ctx.ob("R6", "notified-key-is-popped-key:" + f.name, ok,
                    "the completed entry is built from the key popped for this event", f)
 
+        # per-descriptor queues are FIFO and the queue an interest goes to / comes from matches its direction
+        FQ = "compio_driver::sys::driver::poll::FdQueue"
+        fq = [f for f in db.fns.values() if f.self_adt == FQ]
+        ia = db.adts.get("compio_driver::sys::driver::poll::Interest") or next((a for n, a in db.adts.items() if n.endswith("::Interest") and n.startswith("compio_driver::")), None)
+        if not fq or ia is None:
+            ctx.missing("R6", "FdQueue / Interest")
+        else:
+            vidx = {v["name"]: i for i, v in enumerate(ia["variants"])}
+            pair = {"read_queue": "Readable", "write_queue": "Writable"}
+            npair = 0
+            for f in fq:
+                pb = calls(f, r"VecDeque::<T, A>::pop_back$")
+                ctx.ob("R6", "fdqueue-never-pops-the-back:" + f.short, not pb, "operations leave a descriptor queue at its front only", f)
+                for bb, t in calls(f, r"VecDeque::<T, A>::(push_back|push_front)$"):
+                    fld = [x for x in receiver_field(f, t) if x in pair]
+                    if len(fld) != 1:
+                        continue
+                    want = str(vidx.get(pair[fld[0]]))
+                    ok = False
+                    for bi, b in enumerate(f.blocks):
+                        tt = b["t"]
+                        if tt["k"] != "switch":
+                            continue
+                        sl = op_place(tt["op"])
+                        if sl is None:
+                            continue
+                        isdisc = any(d[0] == "assign" and d[3]["r"].get("k") == "discr" and "Interest" in f.local_ty(d[3]["r"]["pl"]["l"])
+                                     for d in f.cfg.defs.get(sl["l"], []))
+                        if not isdisc:
+                            continue
+                        for v, tgt in tt["tg"]:
+                            if v == want and f.cfg.edge_dominates(bi, tgt, bb):
+                                ok = True
+                    npair += 1
+                    ctx.ob("R6", "interest-goes-to-its-queue:%s:%s" % (f.short, fld[0]), ok,
+                           "%s is pushed only on the Interest::%s arm" % (fld[0], pair[fld[0]]), f)
+                    if f.short.startswith("push_back"):
+                        ctx.ob("R6", "new-interest-at-the-back:" + fld[0], call_matches(t, r"push_back$"), "a new operation queues behind the waiting ones", f)
+                for bb, t in calls(f, r"VecDeque::<T, A>::pop_front$"):
+                    fld = [x for x in receiver_field(f, t) if x in pair]
+                    if len(fld) != 1:
+                        continue
+                    evf = "readable" if fld[0] == "read_queue" else "writable"
+                    ok = False
+                    for bi, b in enumerate(f.blocks):
+                        tt = b["t"]
+                        if tt["k"] != "switch" or tt.get("oty") != "bool":
+                            continue
+                        sl = op_place(tt["op"])
+                        if sl is None:
+                            continue
+                        loads = [d for d in f.cfg.defs.get(sl["l"], []) if d[0] == "assign" and d[3]["r"].get("k") == "use" and
+                                 any(any(isinstance(e, list) and e[0] == "f" and e[2] == evf for e in pl["p"]) for pl in rvalue_places(d[3]["r"]))]
+                        if loads and f.cfg.edge_dominates(bi, tt["ow"], bb):
+                            ok = True
+                    npair += 1
+                    ctx.ob("R6", "popped-queue-matches-event:" + fld[0], ok, "%s is popped only when the event reports `%s`" % (fld[0], evf), f)
+                    # the interest reported with the popped key
+                    vs = set()
+                    for (sbb, targets, ow) in discr_edges(f, bb):
+                        tgt = targets.get("1")
+                        if tgt is None:
+                            continue
+                        for bi, si, st in f.stmts():
+                            r = st.get("r", {})
+                            if r.get("k") == "agg" and (r.get("adt") or "").endswith("::Interest") and f.cfg.edge_dominates(sbb, tgt, bi):
+                                vs.add(r.get("var"))
+                    ctx.ob("R6", "popped-interest-matches-queue:" + fld[0], vs == {pair[fld[0]]},
+                           "the key popped from %s is reported as Interest::%s" % (fld[0], pair[fld[0]]), f)
+            ctx.floor("R6", "queue/direction pairings in FdQueue", npair, 6)
         # the poll never blocks while finished operations wait in the completion channel (thread-pool results and the
         # entries of cancelled descriptor operations are queued without any wake)
         pf = [f for f in db.fns.values() if f.name == "compio_driver::sys::driver::poll::Driver::poll"]
